@@ -158,6 +158,7 @@ let model (e : env) (fields : string array) : string =
       let t = ds (f 1) and p = ds (f 2) in
       let d = dedent t in
       es d ^ "\t" ^ es (dedent d) ^ "\t" ^ es (dedent (indent t p))
+  | "ffx" | "ofx" -> "IMPL-ONLY"
   | op -> "UNKNOWN-OP " ^ op
 
 (* "of": smawk decides ties, and outside C03's precondition it may even miss the
@@ -197,6 +198,7 @@ let () =
            try
              let m = model e args in
              if m = impl then ("ok", m)
+             else if m = "IMPL-ONLY" then ("ok-impl-only", "")
              else if args.(0) = "of" then (of_equiv args impl, m)
              else ("DIFF", m)
            with
